@@ -159,3 +159,59 @@ Proof.
       rewrite Hread. cbn [skip_spaces]. f_equal.
       unfold wrap64, two63, two64 in *. rewrite Z.abs_eq by lia. unfold in_i64, minint, maxint, two63 in Hx. lia.
 Qed.
+
+(* ------------------------------------------------------------------ which strings str2int accepts *)
+(* Lua's l_str2int / luaB_tonumber accept a numeral only if it has at least one digit *)
+Definition has_digit (s : list Z) : Prop := exists c x, In c s /\ digit_of c = Some x.
+Definition str2int_sound : Prop := forall base s v, nl_str2int base s = Some v -> has_digit s.
+
+Lemma skip_spaces_in c s : In c (skip_spaces s) -> In c s.
+Proof.
+  induction s as [|d r IH]; cbn [skip_spaces]; [tauto|]. destruct (isspace d); [intros H; right; apply IH; exact H|tauto].
+Qed.
+
+Lemma str2int_digits_moved base n0 s n rest : str2int_digits base n0 s = (n, rest) -> n <> n0 -> has_digit s.
+Proof.
+  destruct s as [|c r]; cbn [str2int_digits]; [intros [= <- _] H; contradiction|].
+  destruct (digit_of c) as [x|] eqn:E; [|intros [= <- _] H; contradiction].
+  intros _ _. exists c, x. split; [left; reflexivity|exact E].
+Qed.
+
+(* REFUTED as the code is: a sign, a base prefix or blanks alone are read as 0 *)
+Lemma str2int_sound_refuted : ~ str2int_sound.
+Proof.
+  intros H. destruct (H 0 [45] 0 eq_refl) as (c & x & [Hc|[]] & Hd). subst c. discriminate Hd.
+Qed.
+
+(* what holds of the code as it is: a result other than 0 comes from a string with a digit *)
+Lemma str2int_sound_partial base s v : nl_str2int base s = Some v -> v <> 0 -> has_digit s.
+Proof.
+  unfold nl_str2int. destruct s as [|c0 s0]; [discriminate|]. set (s := c0 :: s0).
+  destruct (skip_spaces s) as [|c r] eqn:Esk; [discriminate|].
+  assert (Hin : forall y, In y (c :: r) -> In y s) by (intros y Hy; apply skip_spaces_in; rewrite Esk; exact Hy).
+  set (body := if (c =? 45) || (c =? 43) then r else c :: r).
+  assert (Hb : forall y, In y body -> In y s).
+  { intros y Hy. apply Hin. subst body. destruct ((c =? 45) || (c =? 43)); [right; exact Hy|exact Hy]. }
+  set (pb := if base =? 0
+             then match body with
+                  | b0 :: bc :: r2 =>
+                      if negb (b0 =? 48) then (10, body)
+                      else if (bc =? 98) || (bc =? 66) then (2, r2) else if (bc =? 120) || (bc =? 88) then (16, r2) else (10, body)
+                  | _ => (10, body)
+                  end
+             else (base, body)).
+  assert (Hp : forall y, In y (snd pb) -> In y body).
+  { subst pb. destruct (base =? 0); [|tauto]. destruct body as [|b0 [|bc r2]]; try tauto.
+    destruct (negb (b0 =? 48)); [tauto|].
+    destruct ((bc =? 98) || (bc =? 66)); [intros y Hy; right; right; exact Hy|].
+    destruct ((bc =? 120) || (bc =? 88)); [intros y Hy; right; right; exact Hy|tauto]. }
+  destruct pb as [b body'] eqn:Epb. cbn [snd] in Hp.
+  destruct (negb ((2 <=? b) && (b <=? 36))); [discriminate|].
+  destruct (str2int_digits b 0 body') as [n rest] eqn:Ed.
+  destruct (skip_spaces rest); [|discriminate].
+  intros [= <-] Hv.
+  assert (Hn : n <> 0).
+  { intros ->. apply Hv. destruct (c =? 45); reflexivity. }
+  destruct (str2int_digits_moved _ _ _ _ _ Ed Hn) as (y & x & Hy & Hd).
+  exists y, x. split; [apply Hb, Hp, Hy|exact Hd].
+Qed.
